@@ -252,7 +252,7 @@ func main() {
 			if !ok || fd.Body == nil {
 				continue
 			}
-			if strings.HasSuffix(fd.Name.Name, "Command") && fd.Name.Name != "argumentHintMessageAndExit" {
+			if fd.Recv == nil {
 				c := cmdFn{name: fd.Name.Name}
 				seenGetArgs := false
 				decided := false
@@ -277,20 +277,85 @@ func main() {
 				}
 				cmds = append(cmds, c)
 			}
-			if fd.Name.Name == "main" {
-				ast.Inspect(fd.Body, func(n ast.Node) bool {
-					if cl, ok := n.(*ast.CompositeLit); ok {
-						if mt, ok := cl.Type.(*ast.MapType); ok && exprString(mt.Key) == "string" {
-							for _, el := range cl.Elts {
-								kv := el.(*ast.KeyValueExpr)
-								k := strings.Trim(kv.Key.(*ast.BasicLit).Value, "\"")
-								dispatch = append(dispatch, [2]string{k, exprString(kv.Value)})
+		}
+		// the dispatch table, in whichever of the usual shapes and wherever in the package it is
+		// written: a map literal from command word to function, or a slice / array literal of
+		// entries that pair one string literal with one function name
+		ast.Inspect(f, func(n ast.Node) bool {
+			cl, ok := n.(*ast.CompositeLit)
+			if !ok {
+				return true
+			}
+			switch t := cl.Type.(type) {
+			case *ast.MapType:
+				if exprString(t.Key) != "string" {
+					return true
+				}
+				if _, isFn := t.Value.(*ast.FuncType); !isFn {
+					return true
+				}
+				for _, el := range cl.Elts {
+					kv, ok := el.(*ast.KeyValueExpr)
+					if !ok {
+						continue
+					}
+					if bl, ok := kv.Key.(*ast.BasicLit); ok {
+						dispatch = append(dispatch, [2]string{strings.Trim(bl.Value, "\""), exprString(kv.Value)})
+					}
+				}
+			case *ast.ArrayType:
+				for _, el := range cl.Elts {
+					ecl, ok := el.(*ast.CompositeLit)
+					if !ok {
+						continue
+					}
+					var word, fn string
+					nStr, nFn := 0, 0
+					for _, fe := range ecl.Elts {
+						v := fe
+						if kv, ok := fe.(*ast.KeyValueExpr); ok {
+							v = kv.Value
+						}
+						switch x := v.(type) {
+						case *ast.BasicLit:
+							if x.Kind == token.STRING {
+								word = strings.Trim(x.Value, "\"")
+								nStr++
 							}
+						case *ast.Ident:
+							fn = x.Name
+							nFn++
 						}
 					}
-					return true
-				})
+					if nStr == 1 && nFn == 1 {
+						dispatch = append(dispatch, [2]string{word, fn})
+					}
+				}
 			}
+			return true
+		})
+	}
+	// the command functions are the functions the dispatch table names (whatever they are
+	// called); a table entry that names no function of the package is kept and will fail
+	// `dispatch_targets_are_commands`; array entries whose identifier is no function are not
+	// table entries
+	byName := map[string]cmdFn{}
+	for _, c := range cmds {
+		byName[c.name] = c
+	}
+	var table [][2]string
+	targets := map[string]bool{}
+	for _, d := range dispatch {
+		if _, ok := byName[d[1]]; ok || strings.HasSuffix(d[1], "Command") {
+			table = append(table, d)
+			targets[d[1]] = true
+		}
+	}
+	dispatch = table
+	cmds = cmds[:0]
+	for name := range targets {
+		if c, ok := byName[name]; ok {
+			cmds = append(cmds, c)
 		}
 	}
 	sort.Slice(fsSites, func(i, j int) bool { return fmt.Sprint(fsSites[i]) < fmt.Sprint(fsSites[j]) })
